@@ -101,7 +101,19 @@ impl WaitInfo {
     ///
     /// [`code`]: WaitInfo::code
     pub fn status(&self) -> ExitStatus {
-        unsafe { ExitStatus::from_raw(self.0.si_status()) }
+        // `si_status` is the exit code or the signal number (depending on
+        // `si_code`), not the status word of `wait(2)` that `ExitStatus`
+        // holds, so build that word.
+        let status = unsafe { self.0.si_status() };
+        let raw = match self.0.si_code {
+            libc::CLD_EXITED => (status & 0xff) << 8,
+            libc::CLD_KILLED => status & 0x7f,
+            libc::CLD_DUMPED => (status & 0x7f) | 0x80,
+            libc::CLD_STOPPED | libc::CLD_TRAPPED => ((status & 0xff) << 8) | 0x7f,
+            libc::CLD_CONTINUED => 0xffff,
+            _ => status,
+        };
+        ExitStatus::from_raw(raw)
     }
 
     /// Status of the child process.
